@@ -341,6 +341,55 @@ impl Property for C04 {
                 }
             }
         }
+        // ErrorKind::Interrupted from the source is retryable by convention: the encoder may
+        // report it or retry, but an Ok result must still round-trip to the whole input
+        if data.len() <= 70_000 {
+            let calls = 1 + (hash64(c) % 5) as usize;
+            let io_int = Io { fail_read_at: Some(calls), fail_read_interrupted: true, ..Default::default() };
+            let rk = match &c.reader {
+                ReaderKind::Chunky { .. } => c.reader.clone(),
+                _ => ReaderKind::Chunky { pattern: vec![1 + (hash64(c) >> 8) as usize % 5000], stops: vec![] },
+            };
+            st.eval();
+            st.class("also: source returns Interrupted once");
+            let enc = match c.codec {
+                Codec::Lzma(sel) => sut::lzma_compress(
+                    &data,
+                    match sel {
+                        CompSel::HeaderNone => CompOpt::HeaderNone,
+                        CompSel::HeaderLen => CompOpt::HeaderSome(n),
+                        CompSel::Skip => CompOpt::Skip,
+                    },
+                    &rk,
+                    &io_int,
+                ),
+                Codec::Lzma2 => sut::lzma2_compress(&data, &rk, &io_int),
+                Codec::Xz => sut::xz_compress(&data, &rk, &io_int),
+            };
+            if enc.verdict.is_ok() {
+                let back = match c.codec {
+                    Codec::Lzma(CompSel::HeaderNone) => sut::lzma_decompress_simple(&enc.out, &Opts::default()),
+                    Codec::Lzma(CompSel::HeaderLen) => sut::lzma_decompress_simple(&enc.out, &Opts::default()),
+                    Codec::Lzma(CompSel::Skip) => sut::lzma_decompress_simple(&enc.out, &Opts::with(USize::UseProvided(Some(n)))),
+                    Codec::Lzma2 => sut::lzma2_decompress(&enc.out, &ReaderKind::Slice, &io),
+                    Codec::Xz => sut::xz_decompress(&enc.out, &ReaderKind::Slice, &io),
+                };
+                if !back.verdict.is_ok() || back.out != data {
+                    return bad(
+                        "interrupted-read-truncates",
+                        format!(
+                            "source call #{} returned ErrorKind::Interrupted once; the encoder reported success but its output decodes to {} ({} of {} bytes)",
+                            calls,
+                            back.verdict.brief(),
+                            back.out.len(),
+                            data.len()
+                        ),
+                    );
+                }
+            } else if enc.verdict.is_panic() {
+                return bad("panic", format!("interrupted read: {}", enc.verdict.brief()));
+            }
+        }
         Judgement::Pass
     }
 }
